@@ -129,37 +129,33 @@ Print Assumptions C18_selection_operation_refuted.
 
 (* ---- the requested changes ---- *)
 
-(* Under the guard (no mapping-valued node of the patch content lies on a non-mapping value of the object), for
-   every object and every patch content of any size and depth: Patch._apply_patch succeeds and its result has the
-   same non-mapping values at the same paths as the RFC 7386 merge, i.e. equals it up to empty mappings. *)
+(* Full statement (after the repair 1b39531 of findings F4 and F18c): for every mapping-rooted object and every
+   well-formed patch content, of any size and depth — non-mapping values under mappings of the patch included —
+   Patch._apply_patch succeeds and its result has the same non-mapping values at the same paths as the RFC 7386
+   merge, i.e. equals it up to empty mappings. *)
 Theorem C18_dsl_is_merge : forall p body,
-  is_obj p = true -> wf p = true -> paths_ok p body ->
+  is_obj p = true -> wf p = true -> is_obj body = true ->
   exists b', apply_dsl p body = Ok b' /\ forall q, leaf_at b' q = leaf_at (merge body p) q.
 Proof. exact dsl_is_merge. Qed.
 Print Assumptions C18_dsl_is_merge.
-
-Theorem C18_guard_decidable : forall p body, paths_okb p body = true -> paths_ok p body.
-Proof. exact paths_okb_sound. Qed.
-Print Assumptions C18_guard_decidable.
 
 (* removing empty mappings does not change what leaf_at observes *)
 Theorem C18_prune_invisible : forall j, wf j = true -> forall q, leaf_at (prune j) q = leaf_at j q.
 Proof. exact leaf_at_prune. Qed.
 Print Assumptions C18_prune_invisible.
 
-(* Without the guard the statement is false: TypeError where RFC 7386 replaces (finding F4) ... *)
-Theorem C18_type_change_refuted :
-  exists p body, is_obj p = true /\ wf p = true /\ apply_dsl p body = ErrType /\
-                 leaf_at (merge body p) ["spec"; "a"; "b"] = Some (JNum 1).
-Proof. exact type_change_refuted. Qed.
-Print Assumptions C18_type_change_refuted.
+(* regression: the former witnesses of F4 (a mapping over a string) and F18c (an empty mapping over a scalar) *)
+Theorem C18_type_change_regression :
+  apply_dsl f4_patch f4_body = Ok (JObj [("spec", JObj [("a", JObj [("b", JNum 1)])])]) /\
+  leaf_at (merge f4_body f4_patch) ["spec"; "a"; "b"] = Some (JNum 1).
+Proof. exact type_change_regression. Qed.
+Print Assumptions C18_type_change_regression.
 
-(* ... or a scalar silently kept where an empty mapping was requested (finding F18c). *)
-Theorem C18_empty_over_scalar_refuted :
-  exists p body b', is_obj p = true /\ wf p = true /\ apply_dsl p body = Ok b' /\
-                    leaf_at b' ["spec"; "a"] = Some (JNum 5) /\ leaf_at (merge body p) ["spec"; "a"] = None.
-Proof. exact empty_over_scalar_refuted. Qed.
-Print Assumptions C18_empty_over_scalar_refuted.
+Theorem C18_empty_over_scalar_regression :
+  apply_dsl f18c_patch f18c_body = Ok (JObj [("spec", JObj [("a", JObj [])])]) /\
+  leaf_at (merge f18c_body f18c_patch) ["spec"; "a"] = None.
+Proof. exact empty_over_scalar_regression. Qed.
+Print Assumptions C18_empty_over_scalar_regression.
 
 (* The returned JSON patch, applied to the reviewed object by the RFC 6902 semantics, yields the object with the
    requested changes (as above) and then the transformation functions applied — for every diff function that
@@ -167,7 +163,7 @@ Print Assumptions C18_empty_over_scalar_refuted.
 Theorem C18_patch_fidelity : forall (same : json -> json -> Prop), (forall x, same x x) ->
   forall from_diff, (forall a b, exists r, apply_ops (from_diff a b) a = Some r /\ same r b) ->
   forall p fns body,
-    is_obj p = true -> wf p = true -> paths_ok p body ->
+    is_obj p = true -> wf p = true -> is_obj body = true ->
     exists ops b' r,
       as_json_patch from_diff p fns body = Ok ops /\
       apply_dsl p body = Ok b' /\
@@ -176,7 +172,7 @@ Theorem C18_patch_fidelity : forall (same : json -> json -> Prop), (forall x, sa
 Proof. exact patch_fidelity. Qed.
 Print Assumptions C18_patch_fidelity.
 
-(* without the guard, still: whatever the interpreter produced is what the returned operations rebuild *)
+(* for any body (also one whose root is not a mapping): whatever the interpreter produced is what the returned operations rebuild *)
 Theorem C18_patch_applies : forall (same : json -> json -> Prop), (forall x, same x x) ->
   forall from_diff, (forall a b, exists r, apply_ops (from_diff a b) a = Some r /\ same r b) ->
   forall p fns body b',
@@ -205,10 +201,10 @@ Print Assumptions C18_special_keys.
 (* ---- non-vacuity ---- *)
 
 (* the hypotheses of C18_dsl_is_merge / C18_patch_fidelity are satisfiable (set, overwrite, delete, nested merge,
-   special key), and the law of from_diff has a model *)
-Theorem C18_guard_satisfiable : is_obj ex_patch = true /\ wf ex_patch = true /\ paths_ok ex_patch ex_body.
-Proof. exact guard_satisfiable. Qed.
-Print Assumptions C18_guard_satisfiable.
+   special key, a mapping over a string), and the law of from_diff has a model *)
+Theorem C18_hypotheses_satisfiable : is_obj ex_patch = true /\ wf ex_patch = true /\ is_obj ex_body = true.
+Proof. exact hypotheses_satisfiable. Qed.
+Print Assumptions C18_hypotheses_satisfiable.
 
 Theorem C18_from_diff_law_satisfiable : forall a b, apply_ops (root_replace_diff a b) a = Some b.
 Proof. exact root_replace_law. Qed.
